@@ -208,7 +208,7 @@ Fixpoint any_prefix (l : list bytes) (s : bytes) : bool :=
 
 Definition is_silent (n : option node) : option bytes :=
   match n with
-  | Some (Node (KSilent o _) _) => Some (t_lit o)
+  | Some (Node (KSilent o _ _) _) => Some (t_lit o)
   | _ => None
   end.
 
@@ -457,7 +457,7 @@ Fixpoint emit_node (n : node) (next : option node) (needs_close : bool) (st : es
     | KUnescape _ _ =>
       let st1 := emit_children children false (set_unesc true st) in
       (set_unesc false st1, false)
-    | KSilent origin _ =>
+    | KSilent origin _ _ =>
       let code := go_trim_space (t_lit origin) in
       let is_opening := any_prefix c_openingStatements code in
       let start := if needs_close && negb (has_prefix (lit "}") code) then lit "} " else [] in
